@@ -22,6 +22,7 @@ var blockKinds = []string{PlIf, PlElseIf, PlElse, PlFor, PlForRange}
 
 // Text is one generated case.
 type Text struct {
+	Split bool // the faulty expression is bracketed, the opening bracket on an earlier line
 	Src         string
 	L           int // 1-based line of the faulty construct within Src
 	Lines       int
@@ -473,7 +474,16 @@ func (g *gen) carrier(depth int, t *Text) {
 				g.fault(depth, g.newVar("f")+" = "+f.Text)
 			}
 		default:
-			g.fault(depth, g.newVar("f")+" = "+f.Text)
+			if f.Kind == kExpr && !g.noFault && r.Intn(6) == 0 {
+				// the faulty expression sits in brackets that were opened on an EARLIER line: the construct that
+				// fails is still on its own line
+				t.Split = true
+				g.add(depth, g.newVar("f")+" = 1 + (")
+				g.fault(depth+1, f.Text)
+				g.add(depth, ")")
+			} else {
+				g.fault(depth, g.newVar("f")+" = "+f.Text)
+			}
 		}
 	case CarReturn:
 		if r.Intn(2) == 0 {
